@@ -67,6 +67,31 @@ Example page_nonvacuous :      (* ":left", then cssText "@page toc:first { margi
   /\ forall h', page_assign true h' (ACss true [mkS TIDENT (s "toc"); ch ":"; mkS TIDENT (s "first")] BReject) = Some h'.
 Proof. split; [vm_compute; reflexivity|intros h'; reflexivity]. Qed.
 
+Definition ex_sel_simple : selector :=
+  mkSel [] (mkCompound (HType NsDefault (s "a")) [([], SAttr (mkAttr [] NsDefault (s "x") [] None))] None) [] [].
+(* SelectorList: a comma separated list of grammar selectors (each Declared; sep_free = the member's rendering does not
+   end the comma search of _tokensupto2: brackets balanced, no layout/number token with value "," or "" -- a computable
+   side condition) is split at the commas, every member is parsed on its own and reports its own specificity *)
+Theorem selectorlist_specificities :
+  forall ns sels, sels <> [] -> Forall (fun x => Declared ns x /\ sep_free x = true) sels ->
+    exists ms, sl_run ns (join_commas (map sel_toks sels)) = Some (SLAccepted ms) /\
+               map fst ms = map sp_selector sels.
+Proof. exact selectorlist_specificities_lemma. Qed.
+Print Assumptions selectorlist_specificities.
+(* one rejected member rejects the whole list (wellformed never becomes True again) *)
+Theorem selectorlist_rejected_member :
+  forall ns fuel ts acc e r, sl_loop fuel ns ts acc false e = Some r -> r = SLRejected.
+Proof. exact sl_false_rejects. Qed.
+Print Assumptions selectorlist_rejected_member.
+Example selectorlist_nonvacuous :     (* "a#i , .c" -> two members (1,0,1) (0,1,0);  "a, ,b" and "a," rejected *)
+  option_map (fun r => match r with SLAccepted ms => map fst ms | SLRejected => [] end)
+    (sl_select [] [(s "IDENT", s "a"); (s "HASH", s "#i"); (s "S", s " "); (s "CHAR", s ","); (s "S", s " ");
+                   (s "CHAR", s "."); (s "IDENT", s "c")]) = Some [(1, 0, 1); (0, 1, 0)]%nat
+  /\ sl_select [] [(s "IDENT", s "a"); (s "CHAR", s ","); (s "S", s " "); (s "CHAR", s ","); (s "IDENT", s "b")] = Some SLRejected
+  /\ sl_select [] [(s "IDENT", s "a"); (s "CHAR", s ",")] = Some SLRejected
+  /\ sep_free ex_sel_simple = true.
+Proof. repeat split; vm_compute; reflexivity. Qed.
+
 (* non-vacuity:  ` p|a#i.c[q|x ~= "v"]:hover:not( :lang(en) ) /**/ > *::first-line `  is Declared, and evaluates *)
 Definition ex_ns : ns_map := [(s "p", s "u:p"); (s "q", s "u:q")].
 Definition ex_sel : selector :=
